@@ -505,6 +505,12 @@ impl JoinPlanner {
             return ir;
         }
 
+        // A Union combines independent join trees (one per rule clause). They must
+        // never be flattened into one join graph: plan each branch on its own.
+        if Self::has_union(&ir) {
+            return self.plan_union_branches(ir);
+        }
+
         // Skip join planning when Antijoins are present
         // Antijoin has specific semantics (negation) that must be preserved
         if Self::has_antijoin(&ir) {
@@ -533,6 +539,66 @@ impl JoinPlanner {
 
         // Rebuild IR with optimal join order
         self.rebuild_ir_with_order(&ir, &graph, &optimal_jst)
+    }
+
+    /// Check if IR contains a Union node
+    fn has_union(ir: &IRNode) -> bool {
+        match ir {
+            IRNode::Union { .. } => true,
+            IRNode::Scan { .. } | IRNode::HnswScan { .. } => false,
+            IRNode::Map { input, .. }
+            | IRNode::Filter { input, .. }
+            | IRNode::Distinct { input }
+            | IRNode::Aggregate { input, .. }
+            | IRNode::Compute { input, .. }
+            | IRNode::FlatMap { input, .. } => Self::has_union(input),
+            IRNode::Join { left, right, .. }
+            | IRNode::Antijoin { left, right, .. }
+            | IRNode::JoinFlatMap { left, right, .. } => {
+                Self::has_union(left) || Self::has_union(right)
+            }
+        }
+    }
+
+    /// Plan the branches of a Union independently.
+    ///
+    /// Walks down the unary operators above the Union (planning preserves the
+    /// output schema of its argument, so they stay valid) and plans every Union
+    /// input separately. A Union below a binary operator is left untouched.
+    fn plan_union_branches(&self, ir: IRNode) -> IRNode {
+        match ir {
+            IRNode::Union { inputs } => IRNode::Union {
+                inputs: inputs.into_iter().map(|i| self.plan_joins(i)).collect(),
+            },
+            IRNode::Map {
+                input,
+                projection,
+                output_schema,
+            } => IRNode::Map {
+                input: Box::new(self.plan_joins(*input)),
+                projection,
+                output_schema,
+            },
+            IRNode::Filter { input, predicate } => IRNode::Filter {
+                input: Box::new(self.plan_joins(*input)),
+                predicate,
+            },
+            IRNode::Distinct { input } => IRNode::Distinct {
+                input: Box::new(self.plan_joins(*input)),
+            },
+            IRNode::Aggregate {
+                input,
+                group_by,
+                aggregations,
+                output_schema,
+            } => IRNode::Aggregate {
+                input: Box::new(self.plan_joins(*input)),
+                group_by,
+                aggregations,
+                output_schema,
+            },
+            other => other,
+        }
     }
 
     /// Extract head variables from the top-level IR operation above the joins.
